@@ -16,3 +16,43 @@ package address
 //@ func PubKeyToAddr [C33]
 //@   opt overflow=assumed
 //@   requires forall k Int :: has(drivers, k) ==> drivers[k] != nil
+
+// ---- C19: address validity is a function of (address, height, configured drivers) -----------------
+// addrValid / addrErr name the verdict of a driver's ValidateAddr (deterministic: assumption).
+//@ smt (declare-fun addrValid (Iface Bytes) Bool)
+//@ smt (declare-fun addrErr (Iface Bytes) Iface)
+//@ trusted func (Driver).ValidateAddr
+//@   frame nothing
+//@   ensures (result == nil) == addrValid(recv, addr) && result == addrErr(recv, addr)
+
+// the LRU cache as a partial map from keys to cached values
+//@ ghost *.lruhas (Array Bytes Bool)
+//@ ghost *.lruval (Array Bytes Iface)
+//@ trusted func (*github.com/hashicorp/golang-lru.Cache).Get
+//@   frame nothing
+//@   ensures result1 == recv.lruhas[asstring(key)] && (result1 ==> result0 == recv.lruval[asstring(key)])
+//@ trusted func (*github.com/hashicorp/golang-lru.Cache).Add
+//@   frame recv.lruhas, recv.lruval
+
+//@ func isEnable [C19]
+//@   frame nothing
+//@   ensures result <==> blockHeight < 0 || (enableHeight >= 0 && enableHeight <= blockHeight)
+
+// The verdict for (addr, h). enabledAt(id) abbreviates: a driver is registered under id and is
+// enabled at blockHeight. The first loop builds the cache key = one flag byte per id ('1' enabled,
+// '0' not) followed by the address, so cache entries are never shared between heights at which
+// different drivers are enabled; the second loop visits the ids in ascending order (no map range),
+// so the error of an invalid address does not depend on map iteration order.
+//@ func CheckAddress [C19]
+//@   opt safety=assumed overflow=assumed
+//@   requires forall k Int :: has(drivers, k) ==> drivers[k] != nil
+//@   ensures called(Get) && ret1(Get) ==> e == ret0(Get)
+//@   assert@call Get: len(asstring(arg1)) == 8 + len(addr) && bsub(asstring(arg1), 8, 8 + len(addr)) == addr
+//@   assert@call Get: forall j :: 0 <= j && j < 8 ==> (asstring(arg1)[j] == 49 <==> has(drivers, j) && (blockHeight < 0 || (drivers[j].enableHeight >= 0 && drivers[j].enableHeight <= blockHeight)))
+//@   ensures !(called(Get) && ret1(Get)) && e == nil ==> (exists j :: 0 <= j && j < 8 && has(drivers, j) && (blockHeight < 0 || (drivers[j].enableHeight >= 0 && drivers[j].enableHeight <= blockHeight)) && addrValid(drivers[j].driver, addr)) || (forall j :: 0 <= j && j < 8 ==> !(has(drivers, j) && (blockHeight < 0 || (drivers[j].enableHeight >= 0 && drivers[j].enableHeight <= blockHeight))))
+//@   ensures !(called(Get) && ret1(Get)) && e != nil ==> forall j :: 0 <= j && j < 8 ==> !(has(drivers, j) && (blockHeight < 0 || (drivers[j].enableHeight >= 0 && drivers[j].enableHeight <= blockHeight)) && addrValid(drivers[j].driver, addr))
+//@   loop 0 invariant 0 <= id && id <= 8 && len(key) == id
+//@   loop 0 invariant forall j :: 0 <= j && j < id ==> (key[j] == 49 <==> has(drivers, j) && (blockHeight < 0 || (drivers[j].enableHeight >= 0 && drivers[j].enableHeight <= blockHeight)))
+//@   loop 1 invariant 0 <= id && id <= 8
+//@   loop 1 invariant forall j :: 0 <= j && j < id ==> !(has(drivers, j) && (blockHeight < 0 || (drivers[j].enableHeight >= 0 && drivers[j].enableHeight <= blockHeight)) && addrValid(drivers[j].driver, addr))
+//@   loop 1 invariant e == nil ==> forall j :: 0 <= j && j < id ==> !(has(drivers, j) && (blockHeight < 0 || (drivers[j].enableHeight >= 0 && drivers[j].enableHeight <= blockHeight)))
